@@ -1109,8 +1109,26 @@ func (f *fnCtx) assign(x *ast.AssignStmt) {
 			f.alias[o] = pathVal{root: p.root, st: p.st, segs: append(append([]string{}, p.segs...), "as_"+tn)}
 		}
 	case *ast.CallExpr:
+		// an object among the results of a method of an opaque object (`sender, err := signer.Sender(ethTx)`) is the object
+		// named by that call
+		objAlias := map[int]bool{}
+		if cp, cargs, ok := f.pathOf(r); ok && cargs == nil {
+			for i, l := range x.Lhs {
+				if id, ok := l.(*ast.Ident); ok && id.Name != "_" {
+					if o, ok := f.localVar(id); ok {
+						if k := f.g.classifySafe(o.Type()); k.k == kOpaque {
+							f.alias[o] = pathVal{root: cp.root, st: cp.st, segs: append(append([]string{}, cp.segs...), fmt.Sprintf("res%d", i))}
+							objAlias[i] = true
+						}
+					}
+				}
+			}
+		}
 		vals := f.multi(r, len(x.Lhs))
 		for i, l := range x.Lhs {
+			if objAlias[i] {
+				continue
+			}
 			f.assignTo(l, vals[i], define, nil)
 		}
 	default:
